@@ -185,4 +185,32 @@ theorem unreserve_rsv_lister_miss (c : Cache) (u n : Nat) (h : IndexInv c) (hst 
     IndexInv (unreserveRsvM (reserveRsvM c none n).1 none u n) :=
   index_delete c u n h hst
 
+/-! ### Reserve / Unreserve are cache ops, so the history theorems (ledger_exact, index_inv) cover cycles and roll-backs -/
+
+/-- the cache ops a cycle's Reserve / Unreserve amount to -/
+def reserveOps (x : CycIn) (u : Nat) : List Op := if u == 0 then [] else [.padd u [x.pod]]
+def unreserveOps (assumed podUid : Nat) : List Op := if assumed == 0 then [] else [.pdel assumed [podUid]]
+
+theorem cycle_is_history (c : Cache) (x : CycIn) (u assumed : Nat) (hasAlloc : Bool) (pu : Nat) :
+    (reserveM c x u).1 = run c (reserveOps x u) ∧
+    unreservePodM c assumed hasAlloc pu = run c (unreserveOps assumed pu) := by
+  constructor
+  · unfold reserveM reserveOps
+    by_cases h : u = 0
+    · simp [h, run]
+    · have hb : (u == 0) = false := by simp [h]
+      simp [hb, run, step]
+  · unfold unreservePodM unreserveG unreserveOps
+    by_cases h : assumed = 0
+    · simp [h, run]
+    · have hb : (assumed == 0) = false := by simp [h]
+      simp [hb, run, step]
+
+theorem rsv_cycle_is_history (c : Cache) (o : RObj) (listed : Option RObj) (pu n : Nat) :
+    (reserveRsvM c (some o) n).1 = run c [.rupd { o with node := n }] ∧
+    unreserveRsvM c listed pu n = run c [.rdel (match listed with | some o' => o'.uid | none => pu) n] := by
+  constructor
+  · rfl
+  · cases listed <;> simp [unreserveRsvM, unreserveRsvG, run, step]
+
 end KoordVerif.C05
